@@ -15,7 +15,7 @@ from ..verdict import Verdict
 ID = "C18"
 LEVEL = "exploration"
 RULE = (
-    "Hypothesis draws 2-3 masters on one axis (axis range, master positions and which master is the default are drawn) or, in a third of the cases, 3-4 masters on "
+    "Hypothesis draws 2-3 masters on one axis (axis range, master positions and which master is the default are drawn) or, in half of the cases, 3-4 masters on "
     "two axes (one at both defaults, the others off the default on one axis, each free to leave out the axis it sits at the default of; listing order drawn), 1-3 glyphs of 1-3 shapes each "
     "from one shared structure (same polygon vertex counts, paint kinds, stops and colours; shapes pairwise non-congruent so that reuse decisions "
     "agree) with per-master vertex coordinates, gradient end points / circles and therefore bounds; metrics are drawn. The real CLI builds the "
@@ -90,16 +90,18 @@ def vf_case(draw, tier, two_axes=False):
         case["names"] = ["regular", "bold", "condensed", "thin"][:nm]
         # the tool finds the default master by asking every master listed before it for all its positions: positions can only
         # be left out by masters listed after the default master (anything else is refused, see judge)
-        case["omit_default_axes"] = [False] + [draw(st.booleans()) for _ in range(nm - 1)]
-        if any(case["omit_default_axes"]) or draw(st.booleans()):
+        omitting = draw(st.sampled_from([False, False, True]))
+        case["omit_default_axes"] = [False] + [omitting and draw(st.booleans()) for _ in range(nm - 1)]
+        if any(case["omit_default_axes"]):
             case["order"] = [0] + list(draw(st.permutations(list(range(1, nm)))))
         else:
+            # any listing order: the default master is found by its position on *all* axes, wherever it is listed
             case["order"] = list(draw(st.permutations(list(range(nm)))))
     return case
 
 
 def cases(tier):
-    return st.one_of(vf_case(tier), vf_case(tier), vf_case(tier, two_axes=True))
+    return st.one_of(vf_case(tier), vf_case(tier, two_axes=True))
 
 
 def _num(x):
